@@ -169,12 +169,23 @@ def build_driver(name, race=False):
     return out
 
 
+def _raise_nofile():
+    try:
+        import resource
+        soft, hard = resource.getrlimit(resource.RLIMIT_NOFILE)
+        if soft < hard or hard == resource.RLIM_INFINITY:
+            resource.setrlimit(resource.RLIMIT_NOFILE, (hard, hard))
+    except Exception:
+        pass
+
+
 def run_driver(binpath, args, stdin_path=None, timeout=3600, env=None, ok_codes=(0,)):
     """Run a driver; returns (returncode, list of parsed JSON lines from stdout, stderr tail)."""
     e = goenv()
     if env:
         e.update(env)
     fin = open(stdin_path) if stdin_path else subprocess.DEVNULL
+    _raise_nofile()
     try:
         r = subprocess.run([binpath] + list(args), stdin=fin, env=e, capture_output=True, text=True,
                            timeout=timeout)
@@ -380,7 +391,38 @@ def write_jsonl(path, items):
 
 # -------------------------------------------------------------------- case replay (B3)
 def run_cases(ctx, binpath, args, cases, label="cases", timeout=3600, crash_is_violation=True,
-              max_crashes=3):
+              max_crashes=3, chunk=40000):
+    """Chunked front end of _run_cases: every chunk gets a fresh driver process (bounds the file
+    descriptors / goroutines leaked by abandoned in-process stores)."""
+    if isinstance(cases, str):
+        with open(cases) as fh:
+            lines = [ln.rstrip("\n") for ln in fh if ln.startswith("{")]
+    else:
+        lines = [json.dumps(c, separators=(",", ":")) for c in cases]
+    mism, crashes = [], []
+    summ = {"cases": 0, "evals": 0, "nontrivial": 0, "corpora": 0}
+    for k in range(0, max(len(lines), 1), chunk):
+        part = lines[k:k + chunk]
+        if not part:
+            break
+        pth = os.path.join(ctx.scratch, "%s-chunk%d.jsonl" % (label, k // chunk))
+        with open(pth, "w") as fh:
+            fh.write("\n".join(part) + "\n")
+        m, s_, c = _run_cases(ctx, binpath, args, pth, label="%s-%d" % (label, k // chunk), timeout=timeout,
+                              crash_is_violation=crash_is_violation, max_crashes=max_crashes)
+        for o in m:
+            if isinstance(o.get("n"), int):
+                o["n"] += k
+        mism.extend(m)
+        crashes.extend(c)
+        for key in summ:
+            summ[key] += s_[key]
+        os.remove(pth)
+    return mism, summ, crashes
+
+
+def _run_cases(ctx, binpath, args, cases, label="cases", timeout=3600, crash_is_violation=True,
+               max_crashes=3):
     """Feed cases (list of dicts) to a driver that prints one JSON line per disagreement
     ({"n": index, "what": ...}) and a final {"summary": true, ...}.  If the driver dies (panic in a
     goroutine of the real code, Fatal, ...) the culprit case is located by a serial re-run with
